@@ -342,6 +342,9 @@ func Execute(p *Profile, tier string, seed uint64, t *tape.Tape, index int, hang
 		r.Stats["sched:releases"] = st.Releases
 		r.Stats["sched:preemptions"] = st.Preemptions
 		r.Stats["sched:driven-steps"] = st.DrivenSteps
+		if st.BudgetExhausted > 0 {
+			r.Stats["probe:drive-budget-exhausted"] = st.BudgetExhausted
+		}
 		if st.MaxWorkers > r.Stats["max:sched-workers"] {
 			r.Stats["max:sched-workers"] = st.MaxWorkers
 		}
